@@ -332,32 +332,6 @@ theorem callOk (tid : Nat) (op : NOp) : CallOk tid op := by
     intro st s1 hm _
     have : phRun .idle (preN st tid (.xGetC d s k)) = some .idle := phRun_getEmb _ _ _ _ _ _ _
     rw [this] at hm; cases hm
-  | sCap d n =>
-    refine ⟨fun st => Or.inl rfl, fun _ _ => rfl, ?_⟩
-    intro st s1 hm _
-    have : phRun .idle (preN st tid (.sCap d n)) = some .idle := rfl
-    rw [this] at hm; cases hm
-  | sLitU d bytes =>
-    refine ⟨fun st => Or.inl rfl, fun _ _ => rfl, ?_⟩
-    intro st s1 hm _
-    have : phRun .idle (preN st tid (.sLitU d bytes)) = some .idle := rfl
-    rw [this] at hm; cases hm
-  | boxCtor d tag val =>
-    refine ⟨fun st => Or.inl rfl, fun _ _ => rfl, ?_⟩
-    intro st s1 hm _
-    have : phRun .idle (preN st tid (.boxCtor d tag val)) = some .idle := rfl
-    rw [this] at hm; cases hm
-  | sEditTo d nv =>
-    refine ⟨fun st => Or.inr rfl, ?_, ?_⟩
-    · intro s1 hw; simp only [postN, hw, Bool.false_eq_true, if_false]; rfl
-    · intro st s1 _ hw; simp only [postN, hw, if_true]; rfl
-  | sConst d =>
-    refine ⟨?_, ?_, ?_⟩
-    · intro st; simp only [preN]; split
-      · right; rfl
-      · left; rfl
-    · intro s1 hw; simp only [postN, hw, Bool.false_eq_true, if_false]; split <;> rfl
-    · intro st s1 _ hw; simp only [postN, hw, if_true]; rfl
   | flat op =>
     cases op
     case vPush d x =>
